@@ -210,6 +210,11 @@ func c28Script(r *vrep.R, p c28Params) []byte {
 		return nil
 	}
 	if err != nil {
+		// a deposit with a well-formed 20-byte depositor address has a script (the
+		// wallet could not sweep it otherwise); only malformed parameters may be refused
+		if raw, derr := hex.DecodeString(c28Trim0x(p.Depositor)); derr == nil && len(raw) == 20 {
+			r.ViolationMin("script-refused", len(p.Extra)+1, fp, fmt.Sprintf("Deposit.Script refused a well-formed deposit (depositor %s): %v", p.Depositor, err), c28Case{P: p})
+		}
 		r.Outcome("script:error")
 		return nil
 	}
@@ -310,6 +315,8 @@ func TestVerifC28(t *testing.T) {
 		"0x" + hex.EncodeToString(bytes.Repeat([]byte{0x00}, 20)),
 		"0x" + hex.EncodeToString(bytes.Repeat([]byte{0xff}, 20)),
 		"934B98637cA318a4D6e7Ca6ffd1690b8e77df637",                // no prefix, mixed case
+		"0x0" + hex.EncodeToString(bytes.Repeat([]byte{0x5a}, 20))[1:], // leading zero nibble
+		"00" + hex.EncodeToString(bytes.Repeat([]byte{0xe1}, 19)),      // leading zero byte, no prefix
 		"0x" + hex.EncodeToString(bytes.Repeat([]byte{0x75}, 19)), // malformed: 19 bytes
 		"0x" + hex.EncodeToString(bytes.Repeat([]byte{0xac}, 21)), // malformed: 21 bytes
 		"0xzz",
